@@ -297,6 +297,18 @@ def run(tier, seed):
         p = subprocess.run([core.PY, str(core.VERIF / "harness" / "c20_child.py"), order], env=env, capture_output=True, text=True, timeout=600)
         outs_[order] = core.parse_resp(p.stdout.strip().splitlines()[-1]) if p.returncode == 0 and p.stdout.strip() else {"error": p.stderr[-300:]}
         res.evaluations += 1
+    # README order with discount factors that float32 cannot distinguish from 1 or from 0: construction and solve() must still work
+    for gq in ("1073741823/1073741824", "1/1427247692705959881058285969449495136382746624", "0", "1"):
+        p = subprocess.run([core.PY, str(core.VERIF / "harness" / "c20_child.py"), "readme_gamma=" + gq], env=env, capture_output=True, text=True, timeout=600)
+        line_ = p.stdout.strip().splitlines()[-1] if p.returncode == 0 and p.stdout.strip() else "construct_solve=error:" + p.stderr[-200:].replace(" ", "_")
+        res.evaluations += 1
+        got_ = core.parse_resp(line_).get("construct_solve", "?")
+        if "error" in got_ or got_ == "?":
+            res.disagreements.append({"channel": "C20/readme-order-gamma", "case": {"gamma": gq, "order": "problem and solver created without enabling 64-bit mode first"}, "model": "ok",
+                                      "impl": line_[:300], "failing_input": True, "what": f"a valid discount factor ({gq}) does not give a working solver in the README construction order: {got_}",
+                                      "key": "readme-gamma"})
+        else:
+            res.count("readme-order-gamma:ok")
     a, b_ = outs_["problem_first"], outs_["x64_first"]
     res.sample({"precision": outs_})
     # a solver for which double precision is requested computes in float64 whatever other solvers (single precision requested) exist in the process
